@@ -30,39 +30,94 @@ Inductive poutcome : Type :=
 (* NatType.from_value: assert value >= 0 *)
 Definition nat_from (z : Z) : option pval := if (z <? 0)%Z then None else Some (PNat z).
 
-(* int(a) for IntType / NatType operands, with the prim used by dispatch_types *)
-Definition num_val (v : pval) : option (bool * Z) :=
+(* MutezType.from_value: assert value >= 0; more than 63 bits -> OverflowError *)
+Definition mutez_from (z : Z) : option pval :=
+  if (z <? 0)%Z then None else if (z <? mutez_bound)%Z then Some (PMutez z) else None.
+
+(* the prim of a numeric class (the key used by dispatch_types) and int(a) *)
+Inductive nkind := KInt | KNat | KMutez | KTimestamp.
+Definition num_val (v : pval) : option (nkind * Z) :=
   match v with
-  | PInt z => Some (false, z)
-  | PNat z => Some (true, z)
+  | PInt z => Some (KInt, z)
+  | PNat z => Some (KNat, z)
+  | PMutez z => Some (KMutez, z)
+  | PTimestamp z => Some (KTimestamp, z)
   | _ => None
   end.
 
-(* ADD / MUL (nat*nat -> nat, otherwise int), SUB (always int) *)
-Definition py_arith (op : Z -> Z -> Z) (natres : bool) (a b : pval) : pres :=
+(* res_type.from_value(z) *)
+Definition from_kind (k : nkind) (z : Z) : option pval :=
+  match k with
+  | KInt => Some (PInt z)
+  | KNat => nat_from z
+  | KMutez => mutez_from z
+  | KTimestamp => Some (PTimestamp z)
+  end.
+
+(* the dispatch tables of ADD / SUB / MUL in arithmetic.py *)
+Definition add_kind (a b : nkind) : option nkind :=
+  match a, b with
+  | KNat, KNat => Some KNat
+  | KNat, KInt | KInt, KNat | KInt, KInt => Some KInt
+  | KTimestamp, KInt | KInt, KTimestamp => Some KTimestamp
+  | KMutez, KMutez => Some KMutez
+  | _, _ => None
+  end.
+Definition sub_kind (a b : nkind) : option nkind :=
+  match a, b with
+  | KNat, KNat | KNat, KInt | KInt, KNat | KInt, KInt => Some KInt
+  | KTimestamp, KInt => Some KTimestamp
+  | KTimestamp, KTimestamp => Some KInt
+  | KMutez, KMutez => Some KMutez
+  | _, _ => None
+  end.
+Definition mul_kind (a b : nkind) : option nkind :=
+  match a, b with
+  | KNat, KNat => Some KNat
+  | KNat, KInt | KInt, KNat | KInt, KInt => Some KInt
+  | KMutez, KNat | KNat, KMutez => Some KMutez
+  | _, _ => None
+  end.
+
+Definition py_arith (op : Z -> Z -> Z) (table : nkind -> nkind -> option nkind) (a b : pval) : pres :=
   match num_val a, num_val b with
-  | Some (na, x), Some (nb, y) =>
-      if na && nb && natres then
-        match nat_from (op x y) with Some v => POk [v] | None => PErr end
-      else POk [PInt (op x y)]
+  | Some (ka, x), Some (kb, y) =>
+      match table ka kb with
+      | Some k => match from_kind k (op x y) with Some v => POk [v] | None => PErr end
+      | None => PErr
+      end
   | _, _ => PErr
   end.
 
 (* EDIV: q, r = divmod(a, b); if r < 0: r += abs(b); q += 1 *)
+Definition ediv_kinds (a b : nkind) : option (nkind * nkind) :=
+  match a, b with
+  | KNat, KNat => Some (KNat, KNat)
+  | KNat, KInt | KInt, KNat | KInt, KInt => Some (KInt, KNat)
+  | KMutez, KNat => Some (KMutez, KMutez)
+  | KMutez, KMutez => Some (KNat, KMutez)
+  | _, _ => None
+  end.
+Definition kind_ty (k : nkind) : ty :=
+  match k with KInt => TInt | KNat => TNat | KMutez => TMutez | KTimestamp => TTimestamp end.
+
 Definition py_ediv (a b : pval) : pres :=
   match num_val a, num_val b with
-  | Some (na, x), Some (nb, y) =>
-      let qnat := na && nb in
-      if (y =? 0)%Z then POk [PNone (TPair (if qnat then TNat else TInt) TNat)]
-      else
-        let q := (x / y)%Z in
-        let r := (x mod y)%Z in
-        let q' := if (r <? 0)%Z then (q + 1)%Z else q in
-        let r' := if (r <? 0)%Z then (r + Z.abs y)%Z else r in
-        match (if qnat then nat_from q' else Some (PInt q')), nat_from r' with
-        | Some qv, Some rv => POk [PSome (PPair qv rv)]
-        | _, _ => PErr
-        end
+  | Some (ka, x), Some (kb, y) =>
+      match ediv_kinds ka kb with
+      | None => PErr
+      | Some (kq, kr) =>
+          if (y =? 0)%Z then POk [PNone (TPair (kind_ty kq) (kind_ty kr))]
+          else
+            let q := (x / y)%Z in
+            let r := (x mod y)%Z in
+            let q' := if (r <? 0)%Z then (q + 1)%Z else q in
+            let r' := if (r <? 0)%Z then (r + Z.abs y)%Z else r in
+            match from_kind kq q', from_kind kr r' with
+            | Some qv, Some rv => POk [PSome (PPair qv rv)]
+            | _, _ => PErr
+            end
+      end
   | _, _ => PErr
   end.
 
@@ -82,6 +137,8 @@ Fixpoint bytes_ltb (a b : bytes) : bool :=
 Fixpoint py_eq (a b : pval) {struct a} : bool :=
   match a, b with
   | PInt x, PInt y | PInt x, PNat y | PNat x, PInt y | PNat x, PNat y => (x =? y)%Z
+  | PMutez x, PMutez y | PTimestamp x, PTimestamp y => (x =? y)%Z
+  | PAddress x, PAddress y | PChainId x, PChainId y => bytes_eqb x y
   | PStr x, PStr y => bytes_eqb x y
   | PBytes x, PBytes y => bytes_eqb x y
   | PBool x, PBool y => Bool.eqb x y
@@ -105,6 +162,7 @@ Fixpoint py_eq (a b : pval) {struct a} : bool :=
 Fixpoint py_lt (a b : pval) {struct a} : bool :=
   match a, b with
   | PInt x, PInt y | PInt x, PNat y | PNat x, PInt y | PNat x, PNat y => (x <? y)%Z
+  | PMutez x, PMutez y | PTimestamp x, PTimestamp y => (x <? y)%Z
   | PStr x, PStr y => bytes_ltb x y
   | PBytes x, PBytes y => bytes_ltb x y
   | PBool x, PBool y => negb x && y
@@ -218,7 +276,7 @@ Definition py_update_comb (k : nat) (x v : pval) : option pval :=
   else if Nat.odd k then py_from_comb (replace_nth (Nat.div2 k) x (py_spine v))
   else py_from_comb (firstn (Nat.div2 k) (py_spine v) ++ py_spine x).
 
-Definition py_simple (i : instr) : option (nat * (list pval -> pres)) :=
+Definition py_simple (e : env) (i : instr) : option (nat * (list pval -> pres)) :=
   match i with
   | I_SWAP => Some (2, fun a => match a with [x; y] => POk [y; x] | _ => PErr end)
   | I_PUSH t d => Some (0, fun _ => match py_of_data t d with Some v => POk [v] | None => PErr end)
@@ -254,9 +312,24 @@ Definition py_simple (i : instr) : option (nat * (list pval -> pres)) :=
                                 | [PList _ l] => POk [PNat (Z.of_nat (length l))]
                                 | _ => PErr
                                 end)
-  | I_ADD => Some (2, fun a => match a with [x; y] => py_arith Z.add true x y | _ => PErr end)
-  | I_MUL => Some (2, fun a => match a with [x; y] => py_arith Z.mul true x y | _ => PErr end)
-  | I_SUB => Some (2, fun a => match a with [x; y] => py_arith Z.sub false x y | _ => PErr end)
+  | I_ADD => Some (2, fun a => match a with [x; y] => py_arith Z.add add_kind x y | _ => PErr end)
+  | I_MUL => Some (2, fun a => match a with [x; y] => py_arith Z.mul mul_kind x y | _ => PErr end)
+  | I_SUB => Some (2, fun a => match a with [x; y] => py_arith Z.sub sub_kind x y | _ => PErr end)
+  | I_SUB_MUTEZ => Some (2, fun a => match a with
+                                     | [PMutez x; PMutez y] =>
+                                         if (x - y >=? 0)%Z
+                                         then match mutez_from (x - y) with Some v => POk [PSome v] | None => PErr end
+                                         else POk [PNone TMutez]
+                                     | _ => PErr
+                                     end)
+  | I_AMOUNT => Some (0, fun _ => match mutez_from (e_amount e) with Some v => POk [v] | None => PErr end)
+  | I_BALANCE => Some (0, fun _ => match mutez_from (e_balance e) with Some v => POk [v] | None => PErr end)
+  | I_SENDER => Some (0, fun _ => POk [PAddress (e_sender e)])
+  | I_SOURCE => Some (0, fun _ => POk [PAddress (e_source e)])
+  | I_SELF_ADDRESS => Some (0, fun _ => POk [PAddress (e_self e)])
+  | I_NOW => Some (0, fun _ => POk [PTimestamp (e_now e)])
+  | I_LEVEL => Some (0, fun _ => match nat_from (e_level e) with Some v => POk [v] | None => PErr end)
+  | I_CHAIN_ID => Some (0, fun _ => POk [PChainId (e_chain_id e)])
   | I_EDIV => Some (2, fun a => match a with [x; y] => py_ediv x y | _ => PErr end)
   | I_NEG => Some (1, fun a => match a with
                                | [PInt z] | [PNat z] => POk [PInt (- z)]
@@ -272,7 +345,10 @@ Definition py_simple (i : instr) : option (nat * (list pval -> pres)) :=
                                                else POk [PNone TNat]
                                  | _ => PErr
                                  end)
-  | I_INT => Some (1, fun a => match a with [PNat z] => POk [PInt z] | _ => PErr end)
+  | I_INT => Some (1, fun a => match a with
+                               | [PNat z] | [PMutez z] => POk [PInt z]   (* assert_type_in(NatType): MutezType is a subclass *)
+                               | _ => PErr
+                               end)
   | I_COMPARE => Some (2, fun a => match a with
                                    | [x; y] => if ty_eqb (rt_type x) (rt_type y) then POk [PInt (py_compare x y)] else PErr
                                    | _ => PErr
@@ -352,14 +428,14 @@ Definition list_from_items (ys : list pval) : option pval :=
   | y :: r => if forallb (fun x => ty_eqb (rt_type y) (rt_type x)) r then Some (PList (rt_type y) ys) else None
   end.
 
-Fixpoint py_eval (fuel : nat) (i : instr) (st : pstack) {struct fuel} : poutcome :=
+Fixpoint py_eval (e : env) (fuel : nat) (i : instr) (st : pstack) {struct fuel} : poutcome :=
   match fuel with
   | 0 => POutOfFuel
   | S f =>
       match i with
       | I_NOOP => PDone st
-      | I_SEQ a b => match py_eval f a st with
-                     | PDone st1 => py_eval f b st1
+      | I_SEQ a b => match py_eval e f a st with
+                     | PDone st1 => py_eval e f b st1
                      | o => o
                      end
       | I_DROP n => match pop n st with Some (_, st1) => PDone st1 | None => PError end
@@ -407,7 +483,7 @@ Fixpoint py_eval (fuel : nat) (i : instr) (st : pstack) {struct fuel} : poutcome
           match protect n st with
           | None => PError
           | Some st1 =>
-              match py_eval f c st1 with
+              match py_eval e f c st1 with
               | PDone st2 => match restore n st2 with
                              | Some st3 => PDone st3
                              | None => PError
@@ -417,31 +493,31 @@ Fixpoint py_eval (fuel : nat) (i : instr) (st : pstack) {struct fuel} : poutcome
           end
       | I_IF bt bf =>
           match pop1 st with
-          | Some (PBool b, st1) => py_eval f (if b then bt else bf) st1
+          | Some (PBool b, st1) => py_eval e f (if b then bt else bf) st1
           | _ => PError
           end
       | I_IF_NONE bt bf =>
           match pop1 st with
-          | Some (PNone _, st1) => py_eval f bt st1
-          | Some (PSome x, st1) => py_eval f bf (push x st1)
+          | Some (PNone _, st1) => py_eval e f bt st1
+          | Some (PSome x, st1) => py_eval e f bf (push x st1)
           | _ => PError
           end
       | I_IF_LEFT bt bf =>
           match pop1 st with
-          | Some (PLeft x _, st1) => py_eval f bt (push x st1)
-          | Some (PRight _ y, st1) => py_eval f bf (push y st1)
+          | Some (PLeft x _, st1) => py_eval e f bt (push x st1)
+          | Some (PRight _ y, st1) => py_eval e f bf (push y st1)
           | _ => PError
           end
       | I_IF_CONS bt bf =>
           match pop1 st with
-          | Some (PList t (h :: tl), st1) => py_eval f bt (push h (push (PList t tl) st1))
-          | Some (PList _ [], st1) => py_eval f bf st1
+          | Some (PList t (h :: tl), st1) => py_eval e f bt (push h (push (PList t tl) st1))
+          | Some (PList _ [], st1) => py_eval e f bf st1
           | _ => PError
           end
       | I_LOOP c =>
           match pop1 st with
-          | Some (PBool true, st1) => match py_eval f c st1 with
-                                      | PDone st2 => py_eval f (I_LOOP c) st2
+          | Some (PBool true, st1) => match py_eval e f c st1 with
+                                      | PDone st2 => py_eval e f (I_LOOP c) st2
                                       | o => o
                                       end
           | Some (PBool false, st1) => PDone st1
@@ -449,8 +525,8 @@ Fixpoint py_eval (fuel : nat) (i : instr) (st : pstack) {struct fuel} : poutcome
           end
       | I_LOOP_LEFT c =>
           match pop1 st with
-          | Some (PLeft x _, st1) => match py_eval f c (push x st1) with
-                                     | PDone st2 => py_eval f (I_LOOP_LEFT c) st2
+          | Some (PLeft x _, st1) => match py_eval e f c (push x st1) with
+                                     | PDone st2 => py_eval e f (I_LOOP_LEFT c) st2
                                      | o => o
                                      end
           | Some (PRight _ y, st1) => PDone (push y st1)
@@ -458,13 +534,13 @@ Fixpoint py_eval (fuel : nat) (i : instr) (st : pstack) {struct fuel} : poutcome
           end
       | I_ITER c =>
           match pop1 st with
-          | Some (PList _ l, st1) => py_iter (py_eval f c) l st1
+          | Some (PList _ l, st1) => py_iter (py_eval e f c) l st1
           | _ => PError
           end
       | I_MAP c =>
           match pop1 st with
           | Some (PList t l, st1) =>
-              match py_map (py_eval f c) l st1 with
+              match py_map (py_eval e f c) l st1 with
               | PMDone ys st2 =>
                   match ys with
                   | [] => PDone (push (PList t l) st2)     (* res = src  # TODO: need to deduce argument types *)
@@ -501,7 +577,7 @@ Fixpoint py_eval (fuel : nat) (i : instr) (st : pstack) {struct fuel} : poutcome
               end
           | _ => PError
           end
-      | _ => match py_simple i with
+      | _ => match py_simple e i with
              | Some (k, fn) => py_exec_simple k fn st
              | None => PError
              end
@@ -533,9 +609,9 @@ Definition obs_of (o : poutcome) : obs :=
   end.
 
 (* run the model on an input stack given as typed literals (top first) *)
-Definition py_run (fuel : nat) (code : instr) (inputs : list (ty * data)) : obs :=
+Definition py_run (e : env) (fuel : nat) (code : instr) (inputs : list (ty * data)) : obs :=
   match inputs_of inputs with
-  | Some vs => obs_of (py_eval fuel code (mkstack vs 0))
+  | Some vs => obs_of (py_eval e fuel code (mkstack vs 0))
   | None => OError
   end.
 
